@@ -166,11 +166,23 @@ def triples_to_j(ts):
 
 
 def py_indent(ind):
-    return True if ind == "true" else ind
+    return True if ind == "true" else False if ind == "false" else ind
 
 
 def model_indent(ind):
-    return 2 if ind == "true" else ind
+    return 2 if ind == "true" else None if ind == "false" else ind
+
+
+def x_indent(case):
+    """the `indent` argument of the dmrx call of this case: 'LKB'/'Lkb'/'lkb' stand in for True when the case says so"""
+    ind = case["indent"]
+    if ind == "true" and case.get("lkb"):
+        return case["lkb"]
+    return py_indent(ind)
+
+
+def x_model_indent(ind):
+    return None if ind in (None, "false") else ind
 
 
 # ------------------------------------------------------------------ domains (the property's quantifier, per format)
@@ -362,9 +374,28 @@ def component_of_top(d):
     return seen
 
 
+def penman_value_collision(d, o):
+    """with properties written, some property value is spelled like a PENMAN variable this graph can get (`q`, `_` or
+    a type letter, a position 1..n, then underscores): penman lays the other node out under the property edge"""
+    if not o["properties"]:
+        return False
+    n = len(d.nodes)
+    for nd in d.nodes:
+        for text in nd.properties.values():
+            m = re.fullmatch(r"(?:q|_|x|e|i|u|p)([1-9][0-9]*)_*", text)
+            if m and int(m.group(1)) <= n:
+                return True
+    return False
+
+
+def lnk_none(l):
+    """no alignment: None, unspecified, or the character span <-1:-1> (stated here, not taken from Lnk.__bool__)"""
+    return l is None or l.type == Lnk.UNSPECIFIED or (l.type == Lnk.CHARSPAN and tuple(l.data) == (-1, -1))
+
+
 def lnk_eq(a, b):
-    """same alignment; `None`, unspecified and <-1:-1> all mean "no alignment" (Lnk.__bool__)"""
-    if not a and not b:
+    """same alignment; `None`, unspecified and <-1:-1> all mean: no alignment"""
+    if lnk_none(a) and lnk_none(b):
         return True
     return lnk_to_j(a) == lnk_to_j(b)
 
@@ -422,7 +453,7 @@ def same_up_to_renumbering(want, got):
 
     def sig(n):
         return (n["pred"], n["type"], tuple(sorted(n["props"].items())), n["carg"],
-                canon(lnk_to_j(n["lnk"]) if n["lnk"] else None))
+                canon(None if lnk_none(n["lnk"]) else lnk_to_j(n["lnk"])))
     gl = sorted(map(repr, got["links"]))
 
     def rec(i, m, used):
@@ -490,7 +521,7 @@ PREDS = ["_rain_v_1", "_dog_n_1", "_the_q", "named", "udef_q", "_big_a_1", "neg"
          "_a_n", "_a_b_n_1", "_a_n_1_2", "_abc", "_", "compound", "_x-y_a_1", "_a+b_n_1", "_look_v_up-at",
          "card", "_a.b_n_1", "_é_n_1", "_日本_n_1", "a_b", "_1_n_2", "_a_u_unknown", "_a_z_1", "_a_n_",
          "_straße_n_1", "_ﬁn_n_1", "_ſo_a_1", "_ısı_v_1", "_λόγος_n_1", "_σοφία_n_1", "_cafe\u0301_n_1", "_café_n_1",
-         "_ａｂｃ_n_1", "straße_q", "_maß_n_ß"]
+         "_ａｂｃ_n_1", "straße_q", "_maß_n_ß", "x1", "e2", "q1", "x1_", "_2", "e2__"]
 ODD_PREDS = ["_Dog_n_1", "_dog_n_1_rel", "\"_dog_n_1_rel\"", "'dog", "_a_n_rel_rel", "a b", "_a b_n_1", " x", "_a_N_1",
              "_a(b_n_1", "_a\"b_n_1", "a:b", "_a/b_n_1", "<x>", "_REL", "_rel", "rel", "x_rel", "_a_n_1_REL", "dmrs", "x=y",
              "_Straße_n_1", "_İstanbul_n_1", "_ΣΟΦΟΣ_n_1", "_ＡＢ_n_1", "_ǅ_n_1", "_a\u2028b_n_1", "_a\x85b_n_1", "_a\x0cb_n_1",
@@ -499,7 +530,9 @@ TYPES = ["x", "e", "i", "u", "p", None]
 PROP_POOL = [("TENSE", ["past", "pres", "untensed"]), ("NUM", ["sg", "pl"]), ("PERS", ["3", "1"]), ("IND", ["+", "-"]),
              ("GEND", ["m-or-f", "n"]), ("SF", ["prop", "prop-or-ques"]), ("MOOD", ["indicative"]), ("PERF", ["-"]),
              ("PROG", ["+"]), ("PT", ["std"]), ("X1", ["y", "ﬁ"]), ("ZED", ["a.b", "ς"]), ("ASPECT", ["u"]), ("A", ["b"]),
-             ("SF", ["straße"]), ("MOOD", ["ſıe\u0301", "ａ"]), ("ΑΣ", ["ς"])]
+             ("SF", ["straße"]), ("MOOD", ["ſıe\u0301", "ａ"]), ("ΑΣ", ["ς"]),
+             # values that look like the PENMAN variables of other nodes (type letter or q/_ + 1-based position)
+             ("PT", ["x1", "e2", "q1", "_1", "x2", "i3", "x1_"]), ("GEND", ["e1", "_2", "q2", "e2_"])]
 ODD_PROPS = [("tense", "past"), ("TENSE", "PAST"), ("Tense", "Past"), ("cvarsort", "x"), ("CVARSORT", "x"),
              ("A B", "c"), ("A", "b c"), ("É", "é"), ("A=B", "c"), ("INSTANCE", "x"), ("LNK", "x"), ("CARG", "x"),
              ("1", "2"), ("K", ""), ("SF", "STRASSE"), ("SF", "ΟΔΟΣ"), ("SF", "İ"), ("STRAßE", "x"), ("ǅ", "ǅ")]
@@ -677,6 +710,38 @@ def witnesses():
     w.append(("u-props-and-untyped-props", dmrs_j(10000, 10001, [node_j(10000, "_a_n_1", "u", [("NUM", "pl"), ("IND", "+")], lnk=["c", 0, 1]),
                                                                  node_j(10001, "_b_n_1", None, [("PERS", "3")], carg="c")],
                                                   [link_j(10000, 10001, "ARG1", "NEQ")])))
+    # round 6: classes of input that adversarial edits hit (kept deterministic)
+    w.append(("lnk-kinds", dmrs_j(10000, 10001, [node_j(10000, "_a_n_1", "x", lnk=["t", [3, 1, 2]]), node_j(10001, "_b_v_1", "e", lnk=["e", 7]),
+                                                 node_j(10002, "_c_a_1", "e", lnk=["v", 2, 5]), node_j(10003, "_d_n_1", "x", lnk=["t", [12]]),
+                                                 node_j(10004, "_e_n_1", "x", lnk=["c", -1, 3]), node_j(10005, "_f_n_1", "x", lnk=["c", 3, -1])],
+                                  [link_j(10001, 10000, "ARG1", "NEQ")], lnk=["t", [9, 8]], surface="s")))
+    w.append(("half-spans", dmrs_j(10000, 10000, [node_j(10000, "_e_n_1", "x", [("NUM", "sg")], lnk=["c", -1, 3]),
+                                                  node_j(10001, "_f_n_1", "x", lnk=["c", 3, -1]), node_j(10002, "_g_n_1", "x", lnk=["c", -1, 0])],
+                                   [link_j(10000, 10001, "ARG1", "NEQ"), link_j(10001, 10002, "ARG2", "EQ")], lnk=["c", -1, 9], surface="t")))
+    big = 2 ** 63
+    w.append(("huge-numbers", dmrs_j(10000 + 2 ** 32, 10000 + big,
+                                     [node_j(10000 + 2 ** 32, "_a_n_1", "x", [("NUM", "sg")], lnk=["c", 2 ** 31 - 1, 2 ** 31]),
+                                      node_j(10000 + big, "_b_v_1", "e", lnk=["c", 2 ** 32, big + 1]),
+                                      node_j(99999999999999999999, "_c_v_1", "e", lnk=["c", 4294967295, 4294967296])],
+                                     [link_j(10000 + big, 10000 + 2 ** 32, "ARG1", "NEQ"), link_j(99999999999999999999, 10000 + big, "ARG2", "H")],
+                                     lnk=["c", 0, big], surface="h")))
+    w.append(("two-legacy-links", dmrs_j(None, None, [node_j(10000, "a", "e"), node_j(10001, "b", "x")],
+                                         [link_j(0, 10001, None, "H"), link_j(10000, 10001, "ARG1", "NEQ"), link_j(0, 10000, None, "H")])))
+    w.append(("two-legacy-links-top", dmrs_j(10000, None, [node_j(10000, "a", "e"), node_j(10001, "b", "x")],
+                                             [link_j(0, 10001, None, "H"), link_j(0, 10000, "X", "EQ"), link_j(10000, 10001, "ARG1", "NEQ")])))
+    w.append(("penman-collisions", dmrs_j(10001, 10001, [node_j(10000, "_the_q", None, lnk=["c", 0, 3]),
+                                                         node_j(10001, "x1", "x", [("PT", "x2"), ("GEND", "q1"), ("NUM", "e3")], carg="x2", lnk=["c", 4, 7]),
+                                                         node_j(10002, "e2", "e", [("PT", "e3"), ("TENSE", "x2")], lnk=["c", 8, 9]),
+                                                         node_j(10003, "_u_n_1", None, [("PT", "_4"), ("GEND", "_1")], carg="_4")],
+                                          [link_j(10000, 10001, "RSTR", "H"), link_j(10002, 10001, "ARG1", "NEQ"), link_j(10002, 10003, "ARG2", "NEQ")])))
+    w.append(("penman-value-collisions", dmrs_j(10001, 10001, [node_j(10000, "_the_q", None, lnk=["c", 0, 3]),
+                                                               node_j(10001, "_dog_n_1", "x", [("PT", "e3"), ("GEND", "q1"), ("NUM", "x2")], carg="x2", lnk=["c", 4, 7]),
+                                                               node_j(10002, "_bark_v_1", "e", [("PT", "x2"), ("TENSE", "_4")], lnk=["c", 8, 9]),
+                                                               node_j(10003, "_u_n_1", None, [("PT", "_4"), ("GEND", "q1")], carg="_4")],
+                                                [link_j(10000, 10001, "RSTR", "H"), link_j(10002, 10001, "ARG1", "NEQ"), link_j(10002, 10003, "ARG2", "NEQ")])))
+    w.append(("same-key-nodes", dmrs_j(10000, None, [node_j(10000, "_a_n_1", "x", [("NUM", "sg")]), node_j(10001, "_a_n_1", "x", [("NUM", "pl")]),
+                                                     node_j(10002, "_a_n_1", "x", [("PERS", "3")]), node_j(10003, "_a_n_1", "x")],
+                                       [link_j(10000, 10001, "ARG1", "NEQ"), link_j(10001, 10002, "ARG1", "NEQ"), link_j(10002, 10003, "ARG1", "NEQ")])))
     return w
 
 
@@ -775,7 +840,8 @@ def churn_structures(seed):
 
 
 OPTS = [{"properties": p, "lnk": l} for p in (True, False) for l in (True, False)]
-INDENTS = [None, "true", 0, 1, 2, 3, 4]
+INDENTS = [None, "true", "false", 0, 1, 2, 3, 4, 7]
+LKBS = [None, None, "LKB", "Lkb", "lkb"]
 
 
 class C02(Check):
@@ -864,6 +930,9 @@ class C02(Check):
                        ("XDecodePred", dmrx._decode_pred), ("XDecodeSortinfo", dmrx._decode_sortinfo),
                        ("XDecodeLink", dmrx._decode_link), ("XDecodeLnk", dmrx._decode_lnk),
                        ("XDecodeList", dmrx._decode), ("XEncodeList", dmrx._encode), ("XIndent", dmrx._indent),
+                       ("XEncode", dmrx.encode), ("XDump", dmrx.dump), ("JEncode", dmrsjson.encode), ("JDumps", dmrsjson.dumps),
+                       ("JDump", dmrsjson.dump), ("PEncode", dmrspenman.encode), ("PDumps", dmrspenman.dumps),
+                       ("PDump", dmrspenman.dump), ("SdDump", simpledmrs.dump),
                        ("JToDict", dmrsjson.to_dict), ("JFromDict", dmrsjson.from_dict),
                        ("PToTriples", dmrspenman.to_triples), ("PFromTriples", dmrspenman.from_triples),
                        ("PEscape", dmrspenman._escape), ("PUnescape", dmrspenman._unescape),
@@ -909,6 +978,12 @@ class C02(Check):
                     ds = [dj] if single else [dj, copy.deepcopy(dj)]
                     yield {"kind": "rt", "name": name, "ds": ds, "o": o, "indent": ind, "single": single}
                     count += 1
+            # every indent setting x single/list on the full options (DMRX: _indent depths; 'LKB' spellings)
+            for k, (ind, single) in enumerate((i, s_) for i in ("true", "false", 0, 1, 3) for s_ in (True, False)):
+                ds = [dj] if single else [dj, copy.deepcopy(dj)]
+                yield {"kind": "rt", "name": name, "ds": ds, "o": OPTS[0], "indent": ind, "single": single,
+                       "lkb": LKBS[1 + k % 4] if ind == "true" else None}
+                count += 1
         for p in PREDS + ODD_PREDS:
             yield {"kind": "pred", "p": cps(p)}
             count += 1
@@ -967,7 +1042,9 @@ class C02(Check):
                 single = rng.random() < 0.6
                 m = 1 if single else rng.choice([0, 1, 2, 2, 3])
                 ds = [gen_dmrs(rng, odd) for _ in range(m)]
-                yield {"kind": "rt", "ds": ds, "o": rng.choice(OPTS), "indent": rng.choice(INDENTS), "single": single}
+                ind = rng.choice(INDENTS)
+                yield {"kind": "rt", "ds": ds, "o": rng.choice(OPTS), "indent": ind, "single": single,
+                       "lkb": rng.choice(LKBS) if ind == "true" else None}
             elif k == "sd_dec":
                 yield self.gen_sd_dec(rng)
             else:
@@ -1116,6 +1193,8 @@ class C02(Check):
         res["x"] = [{"enc": guard(lambda d=d: tree_to_j(dmrx._encode_dmrs(d, o["properties"], o["lnk"]))),
                      "dec": guard(lambda d=d: canon_dmrs(dmrx._decode_dmrs(reparse(dmrx._encode_dmrs(d, o["properties"], o["lnk"])))))}
                     for d in ds]
+        xind = x_indent(case)
+        res["xtext"] = guard(lambda: cps(dmrx.encode(ds[0], indent=xind, **o) if single else dmrx.dumps(ds, indent=xind, **o)))
         res["j"] = [{"enc": jv(dmrsjson.to_dict(d, **o)),
                      "dec": guard(lambda d=d: canon_dmrs(dmrsjson.from_dict(dmrsjson.to_dict(d, **o))))} for d in ds]
         res["p"] = [{"enc": guard(lambda d=d: triples_to_j(dmrspenman.to_triples(d, **o))),
@@ -1138,7 +1217,7 @@ class C02(Check):
                 return None
             return {"op": "sd_dec", "toks": toks, "single": case["single"]}
         return {"op": "rt", "ds": case["ds"], "o": case["o"], "indent": model_indent(case["indent"]),
-                "single": case["single"]}
+                "xindent": x_model_indent(case["indent"]), "single": case["single"]}
 
     def model_compare(self, case, expected_, answer):
         """Field-by-field comparison of the model's answer with the implementation.  Every sub-comparison is
@@ -1222,7 +1301,7 @@ class C02(Check):
                 r = cmp("sd.render", "sd.render", expected_["sd"]["flat"], answer["sd"]["render"], sd_dom)
                 if r:
                     return r
-                if case["indent"] is not None and isinstance(expected_["sd"]["text"], list):
+                if model_indent(case["indent"]) is not None and isinstance(expected_["sd"]["text"], list):
                     r = cmp("sd.renderindent", "sd.renderindent", expected_["sd"]["text"], answer["sd"]["renderindent"], sd_dom)
                     if r:
                         return r
@@ -1255,6 +1334,16 @@ class C02(Check):
         else:
             for f in ("lexflat", "lexindent", "dectext"):
                 note("sd." + f, "skipped:non-ASCII digits")
+        # the DMRX text: _encode_dmrs, then dmrx._indent for this indent setting, then the ElementTree writer
+        xguard = next((g for g in (case_guard("x", d) for d in ds) if g), None)
+        if xguard is None and any(ch in k for d in ds for n in d.nodes for k in n.properties for ch in "{}"):
+            xguard = "brace in an attribute name (ElementTree namespace syntax)"
+        if xguard is not None:
+            note("x.text", "skipped:" + xguard)
+        else:
+            r = cmp("xtext", "x.text", expected_["xtext"], answer["xtext"], all(in_domain("x", d) for d in ds))
+            if r:
+                return r
         for c in ("x", "j", "p"):
             for i, d in enumerate(ds):
                 guard = case_guard(c, d)
@@ -1408,10 +1497,39 @@ class C02(Check):
                         fail("dmrspenman: decoded ids are not 10000.. with the top at 10000", [n.id for n in b.nodes])
                     if same_up_to_renumbering(want, view_of(b)):
                         continue
-                    if b.index is not None or b.surface is not None or b.identifier is not None or b.lnk:
+                    if b.index is not None or b.surface is not None or b.identifier is not None or not lnk_none(b.lnk):
                         fail("dmrspenman: decoded graph carries index/surface/identifier/lnk out of nowhere", None)
-                for clause, detail in compare_view(cname, want, b):
+                diffs = compare_view(cname, want, b)
+                for clause, detail in diffs:
                     fail(clause, detail)
+                # the structures' own equality (DMRS/Node/Link/Lnk.__eq__: top, index, predicate, type, properties,
+                # constant, links) agrees with the field-by-field result where the view keeps all of these
+                if c != "p" and not diffs and o["properties"] and not (c == "sd" and any(n.type == "u" for n in d.nodes)):
+                    try:
+                        if not (b == d) or not (d == b) or (b != d):
+                            fail("%s: decoded graph is field-by-field the same but not equal (==) to the original" % cname, None)
+                        elif d.nodes:
+                            e = build(case["ds"][ds.index(d)])
+                            e.nodes[-1].carg = "other" if e.nodes[-1].carg != "other" else None
+                            e2 = build(case["ds"][ds.index(d)])
+                            e2.top = (e2.top or 10000) + 1
+                            e3 = build(case["ds"][ds.index(d)])
+                            e3.nodes[0].properties = dict(e3.nodes[0].properties, ZZ="t")
+                            if b == e or b == e2 or b == e3:
+                                fail("%s: decoded graph compares equal (==) to a graph with another constant/top/property" % cname, None)
+                            elif d.links:
+                                e4 = build(case["ds"][ds.index(d)])
+                                e4.links[-1].post = "H" if e4.links[-1].post != "H" else "EQ"
+                                if b == e4:
+                                    fail("%s: decoded graph compares equal (==) to a graph with another link post" % cname, None)
+                        if o["lnk"]:
+                            for n0, n1 in zip(d.nodes, b.nodes):
+                                if not lnk_none(n0.lnk) and not lnk_none(n1.lnk) and \
+                                        (n0.lnk == n1.lnk) != (lnk_to_j(n0.lnk) == lnk_to_j(n1.lnk)):
+                                    fail("%s: Lnk.__eq__ disagrees with type and data of the alignments" % cname, None)
+                                    break
+                    except Exception as ex:
+                        fail("%s: comparing the decoded graph with == raises" % cname, "%s: %s" % (type(ex).__name__, ex))
             # text stability
             try:
                 again = mod.encode(back[0], indent=ind, **o) if single else mod.dumps(back, indent=ind, **o)
@@ -1422,6 +1540,11 @@ class C02(Check):
                     # PENMAN: the text of the renumbered graph; the penman layout may renumber again, so
                     # iterate: every round must denote the same graph, and the text must reach a fixpoint
                     cur_text, cur = again, back
+                    # a property value spelled like a variable: penman nests the other node under the property edge
+                    # and the nesting moves with the renumbering, so the texts may alternate (observed period 2,
+                    # every round the same graph); there the texts must come back to an earlier one
+                    cyc_ok = any(penman_value_collision(d, o) for d in ds)
+                    seen_texts = [text, again]
                     for _round in range(len(max(ds, key=lambda d: len(d.nodes)).nodes) + 3 if ds else 1):
                         nxt = [mod.decode(cur_text)] if single else mod.loads(cur_text)
                         if len(nxt) != len(cur) or not all(same_up_to_renumbering(view_of(a), view_of(b))
@@ -1429,8 +1552,9 @@ class C02(Check):
                             fail("dmrspenman: text of the renumbered graph decodes to a different graph", cur_text[:300])
                             break
                         nxt_text = mod.encode(nxt[0], indent=ind, **o) if single else mod.dumps(nxt, indent=ind, **o)
-                        if nxt_text == cur_text:
+                        if nxt_text == cur_text or (cyc_ok and nxt_text in seen_texts):
                             break
+                        seen_texts.append(nxt_text)
                         cur_text, cur = nxt_text, nxt
                     else:
                         fail("dmrspenman: re-encoding never becomes stable", cur_text[:300])
@@ -1438,8 +1562,16 @@ class C02(Check):
                         fail("dmrspenman: re-encoding a one-node graph does not reproduce the text", [text[:300], again[:300]])
             except Exception as e:
                 fail("%s: re-encoding the decoded graph raises" % cname, "%s: %s" % (type(e).__name__, e))
+            if c == "x" and case.get("lkb") and case["indent"] == "true":
+                lk = mod.encode(ds[0], indent=case["lkb"], **o) if single else mod.dumps(ds, indent=case["lkb"], **o)
+                if lk != text:
+                    fail("dmrx: indent=%r does not give the text of indent=True" % case["lkb"], [text[:300], lk[:300]])
             # purity / order independence: the same call gives the same text whatever was called before
             self.purity(fail, c, mod, cname, ds, o)
+            self.decode_purity(fail, c, cname, ds, o)
+            self.edit_in_place(fail, c, mod, cname, case["ds"], o)
+            if not single and ds:
+                self.path_api(fail, c, mod, cname, ds, o, ind, back, text)
             # the file API
             if not single:
                 try:
@@ -1545,6 +1677,144 @@ class C02(Check):
                 fail("%s: after the interleaved calls, re-encoding decode(t0) no longer gives t0" % cname,
                      [t0[:300], str(again)[:300]])
 
+    def decode_purity(self, fail, c, cname, ds, o):
+        """Decoding the SAME intermediate object twice (dictionary, triple list, element) gives the same graph and
+        leaves the object as it was; the encoder's intermediate object does not alias the graph's own dicts."""
+        for d in ds:
+            try:
+                if c == "j":
+                    obj = dmrsjson.to_dict(d, **o)
+                    snap = copy.deepcopy(obj)
+                    a = canon_dmrs(dmrsjson.from_dict(obj))
+                    b = canon_dmrs(dmrsjson.from_dict(obj))
+                    same = obj == snap
+                    for n, nj in zip(d.nodes, obj["nodes"]):
+                        if nj.get("sortinfo") is n.properties:
+                            fail("dmrsjson: to_dict hands out the node's own property dict", None)
+                            return
+                elif c == "p":
+                    obj = dmrspenman.to_triples(d, **o)
+                    snap = copy.deepcopy(obj)
+                    a = canon_dmrs(dmrspenman.from_triples(obj))
+                    b = canon_dmrs(dmrspenman.from_triples(obj))
+                    same = obj == snap
+                elif c == "x":
+                    obj = dmrx._encode_dmrs(d, o["properties"], o["lnk"])
+                    snap = etree.tostring(obj, encoding="unicode")
+                    a = canon_dmrs(dmrx._decode_dmrs(obj))
+                    b = canon_dmrs(dmrx._decode_dmrs(obj))
+                    same = etree.tostring(obj, encoding="unicode") == snap
+                else:
+                    return
+            except Exception as e:
+                fail("%s: decoding the encoder's intermediate object raises" % cname, "%s: %s" % (type(e).__name__, e))
+                return
+            if a != b:
+                fail("%s: decoding the same dictionary/triples/element twice gives two different graphs" % cname, None)
+                return
+            if not same:
+                fail("%s: decoding changes the dictionary/triples/element it was given" % cname, None)
+                return
+
+    EDIT_STEPS = ("prop-add", "prop-change", "type", "carg", "pred", "lnk", "top-index", "link-post")
+
+    def edit_in_place(self, fail, c, mod, cname, djs, o):
+        """Encode, edit the object in place, encode again: the second text must be the text of a freshly built
+        object with the same edit (no memo keyed by identity or by part of the content)."""
+        dj = next((x for x in djs if x["nodes"]), None)
+        if dj is None:
+            return
+        d = build(dj)
+        try:
+            mod.encode(d, **o)
+            mod.encode(d, indent=2, **o)
+        except Exception:
+            return
+        e = copy.deepcopy(dj)
+        n, ne = d.nodes[0], e["nodes"][0]
+        for step in self.EDIT_STEPS:
+            if step == "prop-add":
+                if any(uncps(k) == "ZED" for k, _ in ne["props"]):
+                    continue
+                n.properties["ZED"] = "q"
+                ne["props"].append([cps("ZED"), cps("q")])
+            elif step == "prop-change":
+                if not ne["props"]:
+                    continue
+                k0 = uncps(ne["props"][0][0])
+                n.properties[k0] = "w"
+                ne["props"][0][1] = cps("w")
+            elif step == "type":
+                n.type = "i" if n.type != "i" else "e"
+                ne["type"] = cps(n.type)
+            elif step == "carg":
+                n.carg = "edited" if n.carg is None else None
+                ne["carg"] = ocps(n.carg)
+            elif step == "pred":
+                n.predicate = "_edited_v_2"
+                ne["pred"] = cps("_edited_v_2")
+            elif step == "lnk":
+                n.lnk = Lnk.charspan(41, 42)
+                ne["lnk"] = ["c", 41, 42]
+            elif step == "top-index":
+                d.top, d.index = d.nodes[-1].id, d.nodes[0].id
+                e["top"], e["index"] = d.top, d.index
+            elif step == "link-post":
+                if not d.links:
+                    continue
+                d.links[0].post = "HEQ" if d.links[0].post != "HEQ" else "NEQ"
+                k = next(i for i, l in enumerate(e["links"]) if l["start"] != 0)
+                e["links"][k]["post"] = cps(d.links[0].post)
+            fresh = build(e)
+            if not in_domain(c, fresh):
+                return
+            try:
+                got = mod.encode(d, **o)
+                want = mod.encode(fresh, **o)
+            except Exception as ex:
+                fail("%s: encoding after an in-place edit raises" % cname, "%s %s: %s" % (step, type(ex).__name__, ex))
+                return
+            if got != want:
+                fail("%s: after an in-place edit (%s) the encoding is not that of a freshly built graph" % (cname, step),
+                     {"step": step, "got": got[:300], "want": want[:300]})
+                return
+
+    def path_api(self, fail, c, mod, cname, ds, o, ind, back, text):
+        """The list API with a FILE NAME (str or pathlib.Path, alternating) as destination/source, same options:
+        dump(ds, name) must write what dumps(ds) returns (DMRS-JSON: the same data; its named-file branch does not
+        indent), and load(name) / load(<open file>) must return the graphs of loads(dumps(ds))."""
+        import pathlib
+        fn = os.path.join(self.tmp, "rt-%s-%d.txt" % (c, len(ds)))
+        name = pathlib.Path(fn) if (len(ds) + len(ds[0].nodes)) % 2 else fn
+        try:
+            mod.dump(ds, name, indent=ind, **o)
+            with open(fn, encoding="utf-8") as fh:
+                written = fh.read()
+            if c == "j":
+                import json as _json
+                same_text = _json.loads(written) == _json.loads(text)
+            else:
+                same_text = written.rstrip("\n") == text.rstrip("\n")
+            want = [canon_dmrs(x) for x in back]
+            if not same_text:
+                fail("%s: dump(ds, <file name>) does not write what dumps(ds) returns for the same options" % cname,
+                     {"options": o, "indent": repr(ind), "file": written[:300], "dumps": text[:300]})
+            elif [canon_dmrs(x) for x in mod.loads(written)] != want:
+                fail("%s: dump(ds, <file name>) writes other graphs than dumps(ds) with the same options" % cname, None)
+            elif [canon_dmrs(x) for x in mod.load(name)] != want:
+                fail("%s: load(<file name>) differs from loads(dumps(ds))" % cname, None)
+            else:
+                with open(fn, encoding="utf-8") as fh:
+                    if [canon_dmrs(x) for x in mod.load(fh)] != want:
+                        fail("%s: load(<open file>) differs from loads(dumps(ds))" % cname, None)
+        except Exception as e:
+            fail("%s: dump()/load() with a file name raises" % cname, "%s: %s" % (type(e).__name__, e))
+        finally:
+            try:
+                os.remove(fn)
+            except OSError:
+                pass
+
     def classify(self, case, failure):
         """F11: SimpleDMRS, a node of type 'u' comes back with type None, nothing else."""
         if failure.get("clause") != "simpledmrs: node type not preserved by decode(encode(d))":
@@ -1595,7 +1865,11 @@ class C02(Check):
         o = case["o"]
         inc("opt:properties=%s,lnk=%s" % (o["properties"], o["lnk"]))
         inc("indent:%s" % (case["indent"],))
+        if case.get("lkb"):
+            inc("indent:dmrx " + case["lkb"])
         inc("api:" + ("single" if case["single"] else "list%d" % len(case["ds"])))
+        if not case["single"] and case["ds"]:
+            inc("api:file name (str/Path) dump+load, properties=%s,lnk=%s,indent=%s" % (o["properties"], o["lnk"], case["indent"]))
         for dj in case["ds"]:
             d = build(dj)
             inc("nodes:%d" % min(len(d.nodes), 8))
@@ -1605,6 +1879,11 @@ class C02(Check):
                     inc("domain:" + c)
             if any(l["start"] == 0 for l in dj["links"]):
                 inc("legacy_top_link")
+            if in_domain("p", d):
+                if penman_value_collision(d, {"properties": True}):
+                    inc("penman:property value spelled like a variable")
+                if any(re.fullmatch(r"(?:q|_|x|e|i|u|p)[1-9][0-9]*_*", n.predicate) for n in d.nodes):
+                    inc("penman:predicate spelled like a variable")
             if d.top is None:
                 inc("top:none")
             for n in d.nodes:
